@@ -13,12 +13,16 @@ git -C /repo worktree add -q --detach "$WT/r" HEAD || exit 2
 rundemo() {
   if [ -f "$SRC/demo_test.go" ]; then
     cp "$SRC/demo_test.go" "$WT/r/zz_seed_demo_test.go"
-    (cd "$WT/r" && go test $RACE -vet=off -count=1 -tags "seed_demo seeddemo" -run 'TestSeed' . ) > "$WT/demo.log" 2>&1; rc=$?
+    PAT=$(grep -o '^func Test[A-Za-z0-9_]*' "$SRC/demo_test.go" | sed 's/^func //' | paste -sd'|')
+    (cd "$WT/r" && go test $RACE -vet=off -count=1 -tags "seed_demo seeddemo" -run "^($PAT)\$" . ) > "$WT/demo.log" 2>&1; rc=$?
     rm -f "$WT/r/zz_seed_demo_test.go"
     return $rc
   elif [ -f "$SRC/demo/go.mod" ]; then
     rm -rf "$WT/demo"; cp -r "$SRC/demo" "$WT/demo"
     (cd "$WT/demo" && go run . "$WT/r") > "$WT/demo.log" 2>&1; return $?
+  elif [ -d "$SRC/demo" ] && grep -q SEED_REPO "$SRC/demo/main.go" 2>/dev/null; then
+    rm -rf "$WT/demo"; cp -r "$SRC/demo" "$WT/demo"; printf 'module seeddemo\n\ngo 1.23\n' > "$WT/demo/go.mod"
+    (cd "$WT/demo" && SEED_REPO="$WT/r" go run . "$WT/r") > "$WT/demo.log" 2>&1; return $?
   elif [ -d "$SRC/demo" ]; then
     rm -rf "$WT/r/zzseeddemo"; cp -r "$SRC/demo" "$WT/r/zzseeddemo"
     (cd "$WT/r" && go run ./zzseeddemo) > "$WT/demo.log" 2>&1; rc=$?
